@@ -37,6 +37,7 @@ from happysimulator.components.sync.mutex import Mutex
 from happysimulator.core.clock import Clock
 from happysimulator.core.entity import Entity
 from happysimulator.core.event import Event
+from happysimulator.core.sim_future import SimFuture
 
 logger = logging.getLogger(__name__)
 
@@ -152,9 +153,13 @@ class Condition(Entity):
 
         # Set up wakeup callback
         woken = [False]
+        # Park on a future instead of polling with zero-delay yields, so the
+        # clock can advance to the instant the wake-up happens.
+        wake_signal = SimFuture()
 
         def on_wake():
             woken[0] = True
+            wake_signal.resolve(None)
 
         waiter = _Waiter(callback=on_wake, enqueue_time_ns=enqueue_time)
         self._waiters.append(waiter)
@@ -164,7 +169,7 @@ class Condition(Entity):
 
         # Wait for signal
         while not woken[0]:
-            yield 0.0
+            yield wake_signal
 
         # Reacquire the mutex
         yield from self._lock.acquire()
